@@ -335,6 +335,13 @@ class JsonSchemaGenerator:
         if required:
             data.update(required=required)
         if dependent_required:
+            # a dependency that is not a property of this view (no_output / no_input / other mode) cannot be demanded here
+            dependent_required = {
+                k: [dep for dep in deps if dep in properties]
+                for k, deps in dependent_required.items()
+            }
+            dependent_required = {k: deps for k, deps in dependent_required.items() if deps}
+        if dependent_required:
             data.update(dependentRequired=dependent_required)
         addition = options.addition
         if addition is not None:
